@@ -37,7 +37,7 @@ fn raw_list(r: &mut Rng) -> Req {
     Req::RawList { n, fail_at, shape: r.below(7) as u64 }
 }
 
-pub const NUM_DIRECTED: u64 = 30;
+pub const NUM_DIRECTED: u64 = 32;
 
 /// Directed scenarios; `variant` varies seeds / small timing offsets.
 pub fn directed(idx: u64, variant: u64, d: Duration) -> Scenario {
@@ -248,6 +248,21 @@ pub fn directed(idx: u64, variant: u64, d: Duration) -> Scenario {
             s.world.idle_seg = vec![SegPolicy::PerLine];
             s.world.idle_chunk_delay = vec![ms(variant % 4)];
         }
+        // write back-pressure: the next request arrives inside the re-idle window and takes longer than the
+        // window to get onto the wire
+        29 => {
+            s.world.write_cap = [1usize, 2, 3][(variant % 3) as usize];
+            s.world.write_delay = ms(10 + 10 * (variant % 3));
+            s.callers = vec![(ms(20), vec![Step::Do(Req::Raw { shape: 0 }), Step::Think(ms(5 + variant % 80)), Step::Do(Req::RawList { n: 3, fail_at: None, shape: 1 }), Step::Do(Req::Raw { shape: 2 })])];
+            s.notifications = vec![(ms(25), vec!["player".into()])];
+        }
+        // back-pressure while idle is being cancelled and two callers wait
+        30 => {
+            s.world.write_cap = 2;
+            s.world.write_delay = ms(15);
+            s.callers = vec![(ms(300), vec![Step::Do(Req::Raw { shape: 1 })]), (ms(301 + variant % 40), vec![Step::Do(Req::Raw { shape: 5 }), Step::Think(d / 2), Step::Do(Req::Raw { shape: 0 })])];
+            s.notifications = vec![(ms(310), vec!["mixer".into()])];
+        }
         // cancelled call whose request is still executed by the server, next caller right behind
         _ => {
             s.world.c2s_latency = vec![ms(2)];
@@ -360,6 +375,11 @@ pub fn random(seed: u64, d: Duration) -> Scenario {
     s.world.pending_p = *r.pick(&[0u32, 0, 32]);
     s.world.write_cap = *r.pick(&[usize::MAX, usize::MAX, 5, 1]);
     s.world.pending_as_set = r.chance(1, 2);
+    // write back-pressure (a slow peer): small writes, each held back for a while
+    if r.chance(1, 8) {
+        s.world.write_cap = *r.pick(&[1usize, 3, 5]);
+        s.world.write_delay = *r.pick(&[ms(1), ms(10), ms(40)]);
+    }
     // the application may drop the events receiver
     s.keep_events = !r.chance(1, 10);
     // notifications over the span of the session
